@@ -20,6 +20,7 @@ mod faults;
 mod foreign;
 mod guard;
 mod json;
+mod lensweep;
 mod prng;
 mod realise;
 mod receiver;
